@@ -102,7 +102,11 @@ package goja
 //@   maypanic
 //@   requires vm != nil
 //@   ensures len(vm.iterStack) == int(iterLen) && len(vm.refStack) == int(refLen) [heights]
+//@   ensures_abrupt !specIsScriptError(panicValue) [only-uncatchable-errors-escape]
+//@   ensures_abrupt @markersKept [never-pops-a-marker]
+//@   ensures_abrupt @noNewMarkers [no-new-markers]
 //@   assigns script, vm.iterStack, elems(vm.iterStack), vm.refStack, elems(vm.refStack)
+//@   assigns_abrupt @vmRegs
 
 // With closeIters == false no script runs: the only call that can reach script (vm.try around the
 // iterator's return()) is not made.
@@ -115,7 +119,11 @@ package goja
 //@   site try#1 vars closeIters bool
 //@   site try#1 requires closeIters [script-only-when-closing]
 //@   ensures len(vm.iterStack) == int(iterLen) && len(vm.refStack) == int(refLen) [heights]
+//@   ensures_abrupt !specIsScriptError(panicValue) [only-uncatchable-errors-escape]
+//@   ensures_abrupt @markersKept [never-pops-a-marker]
+//@   ensures_abrupt @noNewMarkers [no-new-markers]
 //@   assigns script, vm.iterStack, elems(vm.iterStack), vm.refStack, elems(vm.refStack)
+//@   assigns_abrupt @vmRegs
 
 // handleThrow: only JS-visible errors are ever delivered to a catch or finally; everything else
 // is re-panicked unchanged; a handler is entered at most once (latch) and sees the thrown value
@@ -145,6 +153,7 @@ package goja
 //@   ensures result != nil ==> len(vm.tryStack) == 0 || vm.tryStack[len(vm.tryStack)-1].catchPos == tryPanicMarker [unhandled-stops-at-nearest-marker]
 //@   ensures_abrupt @markersKept [never-pops-a-marker]
 //@   ensures_abrupt @noNewMarkers [no-new-markers]
+//@   ensures_abrupt !specIsScriptError(panicValue) [only-uncatchable-errors-are-rethrown]
 //@   assigns script, @vmRegs
 
 // ---- interrupts (C15, sequential part): the run loop polls the interrupt flag with an atomic load
@@ -202,8 +211,13 @@ package goja
 //@   ensures len(r.jobQueue) == 0 && r.vm.interrupted == 0 [queue-dropped-and-interrupt-cleared]
 //@   assigns r.jobQueue, r.vm.interrupted
 
+// The job loop runs each queued job outside any protected region: a job that panics with a script
+// exception (a reaction job whose capability's resolve function throws) takes that exception straight
+// out of RunProgram as a Go panic. Known finding, see known_findings.json.
 //@ func (*Runtime).leave
-//@   props C03 C10
+//@   props C03 C10 C01
+//@   maypanic
+//@   ensures_abrupt !specIsScriptError(panicValue) [only-uncatchable-errors-escape]
 //@   assigns script, r.jobQueue, r.vm.stack
 //@   requires r != nil && r.vm != nil
 //@   loop 1 vars jobs []func()
@@ -296,6 +310,10 @@ package goja
 //@   requires vm != nil
 //@   ensures len(vm.tryStack) == old(len(vm.tryStack)) [marker-popped]
 //@   ensures_abrupt len(vm.tryStack) == old(len(vm.tryStack)) [marker-popped-on-panic]
+//@   ensures_abrupt !specIsScriptError(panicValue) [only-uncatchable-errors-escape]
+//@   ensures_abrupt @markersKept [never-pops-a-marker]
+//@   ensures_abrupt @noNewMarkers [no-new-markers]
+//@   assigns script, @vmRegs
 
 // halted() dereferences vm.prg unless pc is negative: when it returns false there is a program.
 //@ func (*vm).halted
@@ -314,6 +332,7 @@ package goja
 //@   ensures @noNewMarkers [no-new-markers]
 //@   ensures_abrupt @markersKept [never-pops-a-marker]
 //@   ensures_abrupt @noNewMarkers [no-new-markers]
+//@   ensures_abrupt !specIsScriptError(panicValue) [only-uncatchable-errors-escape]
 //@   assigns script, @vmRegs
 
 //@ func (*vm).runTry
@@ -323,6 +342,7 @@ package goja
 //@   loop 1 vars ex *Exception
 //@   ensures len(vm.tryStack) == old(len(vm.tryStack)) [marker-popped]
 //@   ensures_abrupt len(vm.tryStack) == old(len(vm.tryStack)) [marker-popped-on-panic]
+//@   ensures_abrupt !specIsScriptError(panicValue) [only-uncatchable-errors-escape]
 // Assumed: a protected run leaves the call stack as high as it found it - calls and returns balance
 // on normal completion, and unwinding cuts it back to the height recorded in the region's marker.
 //@   ensures_assumed len(vm.callStack) == old(len(vm.callStack)) [call-stack-balanced]
@@ -340,6 +360,7 @@ package goja
 //@   exitvars vm *vm
 //@   ensures vm != nil && len(vm.tryStack) == old(len(vm.tryStack)) [marker-popped]
 //@   ensures_abrupt vm != nil && len(vm.tryStack) == old(len(vm.tryStack)) [marker-popped-on-panic]
+//@   ensures_abrupt !specIsScriptError(panicValue) [only-uncatchable-errors-escape]
 
 // ---- the Go boundary (C03, C15, C01): an interrupt or a stack overflow leaves the runtime as an
 // error value, never as a Go panic; anything else that is not a script exception is re-panicked.
@@ -355,15 +376,17 @@ package goja
 //@   assigns vm.stack, elems(vm.stack)
 
 //@ func (*Runtime).runWrapped
-//@   props C03 C15
+//@   props C03 C15 C01
 //@   requires r != nil && r.vm != nil
 //@   ensures_abrupt !specIsUncatchable(panicValue) [uncatchable-errors-are-returned-not-panicked]
+//@   ensures_abrupt !specIsScriptError(panicValue) [no-script-exception-escapes-as-a-panic]
 
 //@ func (*Runtime).RunProgram
-//@   props C03 C15
+//@   props C03 C15 C01
 //@   requires r != nil && r.vm != nil && p != nil
 //@   exitvars vm *vm
 //@   ensures_abrupt !specIsUncatchable(panicValue) [uncatchable-errors-are-returned-not-panicked]
+//@   ensures_abrupt !specIsScriptError(panicValue) [no-script-exception-escapes-as-a-panic]
 //@   ensures vm != nil && len(vm.callStack) == old(len(vm.callStack)) [call-stack-restored]
 //@   ensures_abrupt vm != nil && len(vm.callStack) == old(len(vm.callStack)) [call-stack-restored-on-panic]
 
